@@ -304,6 +304,8 @@ fn ask_comp(ctx: &mut Ctx, bytes: &[u8]) {
                 for v in [c.transform.xx, c.transform.yx, c.transform.xy, c.transform.yy] {
                     r.push(v.to_bits() as u16 as u64);
                 }
+                r.push(c.anchor.compute_flags().bits() as u64);
+                r.push(c.transform.compute_flags().bits() as u64);
                 rows.push(r);
             }
             let gf: Vec<Vec<u64>> = g.component_glyphs_and_flags().take(cap).map(|(gid, f)| vec![gid.to_u16() as u64, f.bits() as u64]).collect();
